@@ -126,5 +126,7 @@ func writeEvidence(
 	dir := filepath.Join(Home(), "evidence")
 	_ = os.MkdirAll(dir, 0o755)
 	b, _ := json.MarshalIndent(ev, "", " ")
-	_ = os.WriteFile(filepath.Join(dir, p.ID+".json"), append(b, '\n'), 0o644)
+	// a check made of two binaries (C11: sequential histories, then the same port
+	// under the goroutine scheduler) writes the second part next to the first
+	_ = os.WriteFile(filepath.Join(dir, p.ID+os.Getenv("VERIF_EVIDENCE_SUFFIX")+".json"), append(b, '\n'), 0o644)
 }
